@@ -15,7 +15,8 @@ package seqio
 // values kept to one line):
 //   residues     0, 1, 9, 10, 11, 59, 60, 61, 119, 120, 121, 130 (ORIGIN line/group boundaries)
 //   locus        names of 1, 6 and 16 characters; DNA, RNA, ss-DNA, ds-DNA; linear, circular;
-//                divisions SYN, PHG, UNA; dates 01-JAN-1980, 29-FEB-2000, 31-DEC-1999, 06-JUL-2018
+//                divisions SYN, PHG, UNA; dates 01-JAN-1980, 29-FEB-2000, 31-DEC-1999, 06-JUL-2018,
+//                the first and last day of every month of 2019, 29-FEB-2004, 28-FEB-1900
 //   header       definition short / 100 characters / with an inner period / ending in one or two
 //                periods / empty; accession with and without version; DBLINK 0..2 pairs, a pair
 //                with an empty value; keywords none / one / five; source, organism,
@@ -527,6 +528,12 @@ func TestVerifBoundedGenBank(t *testing.T) {
 	topologies := []gts.Topology{gts.Linear, gts.Circular}
 	divisions := []string{"SYN", "PHG", "UNA"}
 	dates := []Date{vgDate(1980, time.January, 1), vgDate(2000, time.February, 29), vgDate(1999, time.December, 31), vgDate(2018, time.July, 6)}
+	// the first and the last day of every month (2019), the leap day of 2004, the last day of February 1900
+	for m := time.January; m <= time.December; m++ {
+		last := time.Date(2019, m+1, 0, 0, 0, 0, 0, time.UTC).Day()
+		dates = append(dates, vgDate(2019, m, 1), vgDate(2019, m, last))
+	}
+	dates = append(dates, vgDate(2004, time.February, 29), vgDate(1900, time.February, 28))
 	for _, v := range locusNames {
 		f := vgBaseFields()
 		f.LocusName = v
